@@ -290,7 +290,13 @@ def work(task):
         # O1
         t0 = time.time()
         r, m = sol.check(*valid, z3.Not(z3.InRe(built, L)))
-        rec("O1", {"unsat": "ok", "sat": "cex"}.get(r, "unknown"), t0,
+        kind1 = "O1"
+        if r not in ("unsat", "sat") and nbound > 1:
+            # deep patterns: the query does not finish at the requested value length; retry at length 1 and say so
+            valid1 = [c for (_, n, multi) in vars_ for c in (z3.InRe(zv[n], ok_multi if multi else ok_single), z3.Length(zv[n]) <= 1)]
+            r, m = sol.check(*valid1, z3.Not(z3.InRe(built, L)))
+            kind1 = "O1(values<=1)"
+        rec(kind1, {"unsat": "ok", "sat": "cex"}.get(r, "unknown"), t0,
             {"kind": "roundtrip", "values": {n: rx.py_string(m, zv[n]) for n in names}} if m else None)
 
         # O2: all admissible parses agree with v -- delimiter-free values only; attempted for
@@ -333,14 +339,16 @@ def work(task):
         ne = z3.Plus(rx.DOT)
         ref = rx.concat([z3.Re(t[1]) if t[0] == "lit" else ne for t in toks])
         s = z3.String("s")
-        t0 = time.time()
-        r, m = lang_nonempty(sol, s, L, ref)
-        rec("O4a", {"unsat": "ok", "sat": "cex"}.get(r, "unknown"), t0,
-            {"kind": "language", "path": rx.py_string(m, s)} if m else None)
-        t0 = time.time()
-        r, m = lang_nonempty(sol, s, ref, L)
-        rec("O4b", {"unsat": "ok", "sat": "cex"}.get(r, "unknown"), t0,
-            {"kind": "language", "path": rx.py_string(m, s)} if m else None)
+        kbound = len(pattern) + 2 * len(names)
+        for kind4, (ins, outs) in (("O4a", (L, ref)), ("O4b", (ref, L))):
+            t0 = time.time()
+            r, m = lang_nonempty(sol, s, ins, outs)
+            if r not in ("unsat", "sat"):
+                # the unbounded difference does not finish for deep patterns: bounded length, stated in the kind
+                r, m = sol.check(z3.InRe(s, z3.Intersect(z3.Star(rx.DOT), ins, z3.Complement(outs))), z3.Length(s) <= kbound)
+                kind4 = f"{kind4}(|s|<={kbound})"
+            rec(kind4, {"unsat": "ok", "sat": "cex"}.get(r, "unknown"), t0,
+                {"kind": "language", "path": rx.py_string(m, s)} if m else None)
 
         # O2x: exact selected parse, BSTR (covers '/' inside the trailing ** variable)
         t0 = time.time()
@@ -481,12 +489,13 @@ def body(chk: core.Check):
     tier = chk.tier
     N = {1: 4, 2: 4, 3: 3, 4: 2} if tier == "quick" else {1: 8, 2: 6, 3: 4, 4: 2}
     X = {1: 6, 2: 4, 3: 3, 4: 3, 5: 2, 6: 2} if tier == "quick" else {1: 8, 2: 6, 3: 4, 4: 3, 5: 3, 6: 2}
-    timeout = 60 if tier == "quick" else 300
+    timeout = 60 if tier == "quick" else 120
     chk.engines |= {"RX (z3 seq/regex)", "BSTR (exact backtracking order, z3 ints)"}
     chk.bound("segment_value_length_RX_by_number_of_variables", {**N, "more": 2})
     chk.bound("segment_value_length_BSTR_by_number_of_variables", {**X, "note": "the ** variable gets +2"})
     chk.bound("path_length_O3", "3*N + len(pattern)")
     chk.bound("solver_timeout_s", timeout)
+    chk.bound("fallbacks_on_unknown", "O1 at value length 1; O4 at |s| <= len(pattern) + 2*variables (the kind of the obligation says so)")
     chk.assumptions += [
         "segment values are non-empty and contain neither a separator of the pattern nor a newline "
         "('/' allowed in the trailing ** variable)",
